@@ -30,12 +30,16 @@ import (
 func main() { vlib.Run("C11", run) }
 
 func run(c *vlib.Ctx) {
-	c.Rule("histories of 3-20 mutations {AddRawLink,AddNodeLink,RemoveNodeLink,SetLinks(0-30),SetData(nil/empty/bytes),SetCidBuilder(v0,v1 x {sha2-256,sha2-512,blake2b-256,sha3-256,sha2-256/20,identity},*Prefix,V0Builder,V1Builder,custom,nil,invalid),Copy,UpdateNodeLink,ReloadBlock} over names {\"\",a,b,aa,ab,é,A,z} (duplicates frequent), Tsize in {0,1,2^31,2^63-1,random}; after every mutation a random subset of 11 observers runs in random order (so the encode/CID cache is warm, cold or half-refreshed at the next mutation); distinct = FNV of the op+observer list; non-trivial = >=2 mutations hit a warm CID cache, some observed state had equal-named links, and a twin-order comparison ran")
-	c.Cases("hist", c.N(3000, 40000), func(k *vlib.Case) { history(k, true) })
+	c.Rule("histories of 3-20 mutations {AddRawLink,AddNodeLink,RemoveNodeLink,SetLinks(0-30),SetData(nil/empty/bytes),SetCidBuilder(v0,v1 x {sha2-256,sha2-512,blake2b-256,sha3-256,sha2-256/20,identity},*Prefix,V0Builder,V1Builder,custom,nil,invalid),Copy,UpdateNodeLink,ReloadBlock} over names {\"\",a,b,aa,ab,é,A,z} (duplicates frequent), Tsize in {0,1,2^31,2^63-1,random}; after every mutation a random subset of 11 observers runs in random order (so the encode/CID cache is warm, cold or half-refreshed at the next mutation); distinct = FNV of the op+observer list; decoded stratum: the history starts from DecodeProtobuf[Block] of a hand-encoded block with 1-8 links in random (mostly non-canonical) order; non-trivial = >=2 mutations hit a warm CID cache, some observed state had equal-named links, and a twin-order comparison ran (decoded stratum: additionally the block was unsorted and a link mutation followed)")
+	c.Cases("hist", c.N(3000, 40000), func(k *vlib.Case) { history(k, true, false) })
 	// Same generator without SetCidBuilder(nil): avoids the trigger of the
 	// known stale-CID finding so that every other clause stays fully armed.
-	c.Cases("hist-nonil", c.N(1500, 20000), func(k *vlib.Case) { history(k, false) })
+	c.Cases("hist-nonil", c.N(1500, 20000), func(k *vlib.Case) { history(k, false, false) })
 	c.Cases("wide", c.N(400, 6000), wide)
+	// histories that start from a node decoded from a valid block whose links are
+	// NOT in canonical order (hand-encoded): as-serialized order until the first
+	// link mutation, canonical from then on
+	c.Cases("decoded", c.N(1500, 20000), func(k *vlib.Case) { history(k, true, true) })
 }
 
 // ---------------------------------------------------------------- model
@@ -74,10 +78,22 @@ type model struct {
 	data    []byte
 	links   []mlink // insertion order
 	builder bspec
+	// asSerialized: the node was decoded from a block and no link mutation has
+	// happened yet; boxo documents that such a node keeps the (possibly
+	// unsorted) serialized link order until its links are mutated or it is copied.
+	asSerialized bool
 }
 
 func (m *model) clone() *model {
-	return &model{data: m.data, links: append([]mlink(nil), m.links...), builder: m.builder}
+	return &model{data: m.data, links: append([]mlink(nil), m.links...), builder: m.builder, asSerialized: m.asSerialized}
+}
+
+// expected is the link order every view and the encoding must show.
+func (m *model) expected() []mlink {
+	if m.asSerialized {
+		return append([]mlink(nil), m.links...)
+	}
+	return m.sorted()
 }
 
 // sorted = stable insertion sort by byte-wise name (own implementation on purpose).
@@ -342,6 +358,10 @@ func (w *world) mutated(kind string) {
 	}
 	w.warm = false
 	w.lastMut = kind
+	switch kind {
+	case "AddRawLink", "AddNodeLink", "RemoveNodeLink", "SetLinks", "Copy", "UpdateNodeLink":
+		w.m.asSerialized = false // documented: these sort the links
+	}
 }
 
 // ---------------------------------------------------------------- observers
@@ -360,7 +380,7 @@ func (w *world) expectCid(via string, got cid.Cid, raw []byte) {
 }
 
 func (w *world) checkRaw(via string, raw []byte) {
-	want := w.m.sorted()
+	want := w.m.expected()
 	if _, err := w.n.EncodeProtobuf(false); err != nil {
 		w.fail("encode-failed/after="+w.lastMut, "the node encodes", "bytes", err.Error()+" via "+via)
 		return
@@ -459,12 +479,12 @@ func (w *world) observe(o string) {
 		w.warm = true
 	case "Links":
 		got := fromFormat(n.Links())
-		if want := w.m.sorted(); !eqLinks(got, want) {
+		if want := w.m.expected(); !eqLinks(got, want) {
 			w.fail("links-view/after="+w.lastMut, "Links() == model links stably sorted by name", fmtLinks(want), fmtLinks(got))
 		}
 	case "Tree":
 		got := n.Tree("", -1)
-		want := w.m.sorted()
+		want := w.m.expected()
 		ok := len(got) == len(want)
 		for i := 0; ok && i < len(got); i++ {
 			ok = got[i] == want[i].name
@@ -539,7 +559,7 @@ func (w *world) observe(o string) {
 		for _, l := range out.Links {
 			got = append(got, mlink{l.Name, l.Size, l.Cid})
 		}
-		if want := w.m.sorted(); !eqLinks(got, want) || !eqData(out.Data, w.m.data) {
+		if want := w.m.expected(); !eqLinks(got, want) || !eqData(out.Data, w.m.data) {
 			w.fail("json-view/after="+w.lastMut, "MarshalJSON shows current data and sorted links", fmt.Sprintf("%x %s", w.m.data, fmtLinks(want)), fmt.Sprintf("%x %s", out.Data, fmtLinks(got)))
 		}
 	}
@@ -579,6 +599,9 @@ func (w *world) observeSome() {
 // (equal names keep their relative order, which the statement makes
 // significant) and demands identical bytes and CID.
 func (w *world) twin() {
+	if w.m.asSerialized {
+		return // as-decoded order is the block's, not the canonical one
+	}
 	ls := w.m.sorted()
 	order := w.r.Perm(len(ls))
 	// restore the relative order of equal names
@@ -658,13 +681,75 @@ func (w *world) genLinks(n int, pool []string) ([]*format.Link, []mlink) {
 	return fl, ml
 }
 
-func history(k *vlib.Case, allowNil bool) {
+// encodeUnsorted writes a PBNode with the links in the given order.
+func encodeUnsorted(links []mlink, data []byte, hasData, dataFirst bool) []byte {
+	var out []byte
+	putData := func() {
+		if hasData {
+			out = protowire.AppendTag(out, 1, protowire.BytesType)
+			out = protowire.AppendBytes(out, data)
+		}
+	}
+	if dataFirst {
+		putData()
+	}
+	for _, l := range links {
+		var lb []byte
+		lb = protowire.AppendTag(lb, 1, protowire.BytesType)
+		lb = protowire.AppendBytes(lb, l.c.Bytes())
+		lb = protowire.AppendTag(lb, 2, protowire.BytesType)
+		lb = protowire.AppendBytes(lb, []byte(l.name))
+		lb = protowire.AppendTag(lb, 3, protowire.VarintType)
+		lb = protowire.AppendVarint(lb, l.size)
+		out = protowire.AppendTag(out, 2, protowire.BytesType)
+		out = protowire.AppendBytes(out, lb)
+	}
+	if !dataFirst {
+		putData()
+	}
+	return out
+}
+
+func history(k *vlib.Case, allowNil, startDecoded bool) {
 	w := newWorld(k)
 	r := k.R
 	w.n = new(mdag.ProtoNode)
 	w.m = &model{builder: v0spec}
 	w.lastMut = "new"
-	if r.Bool() {
+	startUnsorted := false
+	if startDecoded {
+		_, ml := w.genLinks(r.Range(1, 8), names)
+		var data []byte
+		hasData := r.Bool()
+		if hasData {
+			data = r.Bytes(r.Intn(20))
+		}
+		raw := encodeUnsorted(ml, data, hasData, r.Chance(1, 5))
+		startUnsorted = !sortedByName(ml)
+		w.m.links, w.m.data, w.m.asSerialized = ml, data, true
+		w.lastMut = "decode"
+		if r.Bool() {
+			k.Logf("DecodeProtobuf of hand-encoded block, links as serialized %s unsorted=%v", fmtLinks(ml), startUnsorted)
+			nd, err := mdag.DecodeProtobuf(raw)
+			if err != nil {
+				panic(err)
+			}
+			w.n = nd
+		} else {
+			spec := bspec{"v1-sha256", 1, mh.SHA2_256, -1}
+			k.Logf("DecodeProtobufBlock(v1) of hand-encoded block, links as serialized %s unsorted=%v", fmtLinks(ml), startUnsorted)
+			blk, err := blocks.NewBlockWithCid(raw, spec.sum(raw))
+			if err != nil {
+				panic(err)
+			}
+			nd, err := mdag.DecodeProtobufBlock(blk)
+			if err != nil {
+				panic(err)
+			}
+			w.n = nd.(*mdag.ProtoNode)
+			w.m.builder = spec
+		}
+	} else if r.Bool() {
 		d, desc := w.pickData()
 		k.Logf("NodeWithData %s", desc)
 		w.n = mdag.NodeWithData(d)
@@ -826,7 +911,7 @@ func history(k *vlib.Case, allowNil bool) {
 				return
 			}
 			w.n = nd.(*mdag.ProtoNode)
-			w.m.links = w.m.sorted() // serialized order is the new insertion order
+			w.m.links = w.m.expected() // serialized order is the new insertion order
 			w.mutated("ReloadBlock")
 		}
 		w.observeSome()
@@ -849,7 +934,7 @@ func history(k *vlib.Case, allowNil bool) {
 		w.observe(o)
 	}
 	w.twin()
-	if w.warmMuts >= 2 && w.sawDup && w.twins > 0 {
+	if w.warmMuts >= 2 && w.sawDup && w.twins > 0 && (!startDecoded || (startUnsorted && !w.m.asSerialized)) {
 		k.Nontrivial()
 	}
 	k.C.Count("mutations", int64(nmut))
